@@ -56,6 +56,8 @@ def node_path(node):
         key = node.slice
         if isinstance(key, ast.Constant):
             return node_path(node.value) + '[' + repr(key.value) + ']'
+        if isinstance(key, (ast.Name, ast.Attribute)):
+            return node_path(node.value) + '[' + node_path(key) + ']'
     raise Untranslatable(ast.dump(node))
 
 
@@ -81,12 +83,19 @@ class Tr:
         raise Untranslatable(f'truthiness of {typ}')
 
     def expr(self, node, env):
+        atoms = self.t.get('atoms')
+        if atoms:
+            txt = ast.unparse(node)
+            if txt in atoms:
+                return atoms[txt]
         if isinstance(node, (ast.Name, ast.Attribute, ast.Subscript)):
             try:
                 p = self.path(node)
             except Untranslatable:
                 p = None
             if p is not None and p in env:
+                if env[p][1] == 'opaque':
+                    raise Untranslatable(f'use of the opaque value {p}')
                 return env[p]
             if p == 'block.UNDEF':
                 return ('Val.undef', 'val')
@@ -99,6 +108,8 @@ class Tr:
                 return ('false', 'bool')
             if isinstance(v, int):
                 return (f'({v} : Rat)', 'rat')
+            if isinstance(v, float) and v == int(v):
+                return (f'({int(v)} : Rat)', 'rat')
             if isinstance(v, str):
                 return ('"' + v.replace('\\', '\\\\').replace('"', '\\"') + '"', 'str')
             raise Untranslatable(f'constant {v!r}')
@@ -173,6 +184,10 @@ class Tr:
                     if (xty == 'vals' and isinstance(gen.target, ast.Name) and len(gen.ifs) == 1
                             and isinstance(gen.ifs[0], ast.Name) and gen.ifs[0].id == gen.target.id):
                         return (f'(({xs}).filter Val.truthy).length', 'nat')
+            if isinstance(f, ast.Name) and f.id in ('all', 'any') and len(node.args) == 1 and not node.keywords:
+                xs, xty = self.expr(node.args[0], env)
+                if xty == 'vals':
+                    return (f'(({xs}).{f.id} Val.truthy)', 'bool')
             if isinstance(f, ast.Name) and f.id == 'len' and len(node.args) == 1:
                 key = 'len(' + self.path(node.args[0]) + ')'
                 if key in env:
@@ -463,6 +478,401 @@ class TrEdit:
         return self.block(list(node.body), '.error .reject', 1)
 
 
+class TrAct(Tr):
+    """
+    Third translation scheme: the ORDER OF ACTIONS of `SBlock.set_output` / `CBlock.eval_block`.
+    The method becomes a function returning the list of primitive actions it performs, in order
+    (`Gen.TrO.Prim`): raise, store the output, queue the block for the simulator, send the events of a slot
+    with given `previous`/`value`, return.  Conditions are translated by the expression translator of `Tr`.
+
+    statements   if/else | NAME = <expr> | raise Exc(…) | return [True/False] | self._output = <val expr> |
+                 self.circuit.sblock_queue.put_nowait(self) |
+                 for event in self._<slot>_events: event.send(self, trigger='output', previous=<e>, value=<e>) |
+                 self.log_debug(…) (ignored)
+    """
+    SLOTS = {'self._output_events': '.output', 'self._every_output_events': '.every'}
+
+    def truthy(self, text, typ):
+        if typ == 'evs':
+            return f'(!({text}).isEmpty)'       # a tuple is true iff it is not empty
+        return Tr.truthy(self, text, typ)
+
+    def acts(self, stmts, env, ind):
+        pad = '  ' * ind
+        if not stmts:
+            return pad + '[]'               # falling off the end = `return None`
+        s, rest = stmts[0], stmts[1:]
+        if isinstance(s, ast.Expr):
+            if isinstance(s.value, ast.Constant) and isinstance(s.value.value, str):
+                return self.acts(rest, env, ind)
+            if isinstance(s.value, ast.Call):
+                p = self.path(s.value.func)
+                if p == 'self.log_debug':
+                    return self.acts(rest, env, ind)
+                if p.startswith('self.log_') or p.startswith('_logger.'):
+                    return self.acts(rest, env, ind)
+                if (p == 'self.circuit.sblock_queue.put_nowait' and len(s.value.args) == 1
+                        and self.path(s.value.args[0]) == 'self' and not s.value.keywords):
+                    return f'{pad}Prim.enqueue ::\n' + self.acts(rest, env, ind)
+                if p in self.t.get('prims', {}):
+                    return f"{pad}Prim.{self.t['prims'][p]} ::\n" + self.acts(rest, env, ind)
+            raise Untranslatable('statement ' + ast.dump(s)[:120])
+        if isinstance(s, ast.Assert):
+            return self.acts(rest, env, ind)
+        if isinstance(s, ast.Try) and not s.orelse and not s.finalbody:
+            fall = self.t.get('fallible', {})
+            if (len(s.body) == 1 and isinstance(s.body[0], ast.Assign) and len(s.body[0].targets) == 1
+                    and isinstance(s.body[0].targets[0], ast.Name)):
+                try:
+                    src = self.path(s.body[0].value)
+                except Untranslatable:
+                    src = None
+                if src in fall:
+                    # try: NAME = <a lookup that may fail>  except E1: …  except E2: …
+                    param, ctors, found = fall[src]
+                    arms, seen = [], []
+                    for h in s.handlers:
+                        exc = getattr(h.type, 'id', None)
+                        if exc not in ctors:
+                            raise Untranslatable(f'handler for {exc}')
+                        seen.append(exc)
+                        body = list(h.body) + ([] if self.ends(h.body) else rest)
+                        arms.append(f'{pad}| .{ctors[exc]} =>\n' + self.acts(body, env, ind + 1))
+                    if seen != list(ctors):
+                        raise Untranslatable(f'handlers {seen}, expected {list(ctors)}')
+                    env2 = dict(env)
+                    env2[s.body[0].targets[0].id] = (s.body[0].targets[0].id, 'opaque')
+                    arms.append(f'{pad}| .{found} =>\n' + self.acts(rest, env2, ind + 1))
+                    return f'{pad}match {param} with\n' + '\n'.join(arms)
+            # try: <statements>  except Exception as err: <only logging>   (errors are suppressed)
+            if (len(s.handlers) == 1 and getattr(s.handlers[0].type, 'id', None) == 'Exception'
+                    and all(isinstance(h, ast.Expr) and isinstance(h.value, ast.Call)
+                            and self.path(h.value.func).startswith('self.log_') for h in s.handlers[0].body)):
+                return self.acts(list(s.body) + rest, env, ind)
+            raise Untranslatable('try ' + ast.dump(s)[:160])
+        if isinstance(s, ast.Raise):
+            if isinstance(s.exc, ast.Call) and isinstance(s.exc.func, ast.Name):
+                return f'{pad}[Prim.raise "{s.exc.func.id}"]'
+            raise Untranslatable('raise ' + ast.dump(s)[:100])
+        if isinstance(s, ast.Return):
+            if s.value is None:
+                return pad + '[Prim.ret none]'
+            if isinstance(s.value, ast.Constant) and isinstance(s.value.value, bool):
+                return pad + f'[Prim.ret (some {"true" if s.value.value else "false"})]'
+            raise Untranslatable('return ' + ast.dump(s.value)[:100])
+        if isinstance(s, ast.Assign) and len(s.targets) == 1:
+            tgt = s.targets[0]
+            if isinstance(tgt, ast.Name):
+                env2 = dict(env)
+                try:
+                    t, ty = self.expr(s.value, env)
+                except Untranslatable:
+                    # a value the translator does not understand: the name becomes opaque, any later use of
+                    # it in a translated expression is an error (uses in ignored logging calls are fine)
+                    env2[tgt.id] = (tgt.id, 'opaque')
+                    return self.acts(rest, env2, ind)
+                env2[tgt.id] = (tgt.id, ty)
+                return f'{pad}let {tgt.id} : {LEAN_TYPE[ty]} := {t}\n' + self.acts(rest, env2, ind)
+            if self.path(tgt) in self.t.get('assign_prims', {}):
+                return f"{pad}Prim.{self.t['assign_prims'][self.path(tgt)]} ::\n" + self.acts(rest, env, ind)
+            if self.path(tgt) == 'self._output':
+                t, ty = self.expr(s.value, env)
+                if ty != 'val':
+                    raise Untranslatable('self._output = <' + ty + '>')
+                return f'{pad}Prim.store {t} ::\n' + self.acts(rest, env, ind)
+            raise Untranslatable('assignment ' + ast.dump(s)[:120])
+        if isinstance(s, ast.If) and self.only_logging(s.body) and self.only_logging(s.orelse):
+            return self.acts(rest, env, ind)        # whatever the condition: nothing but log messages
+        if (isinstance(s, ast.If) and isinstance(s.test, ast.BoolOp) and isinstance(s.test.op, ast.And)
+                and self.narrow_stmt(s.test.values[0], env) is not None):
+            # `if X is not None and B: body else: orelse`  ==  `if X is not None: (if B: body else: orelse) else: orelse`
+            others = s.test.values[1:]
+            inner_test = others[0] if len(others) == 1 else ast.BoolOp(op=ast.And(), values=others)
+            inner = ast.If(test=inner_test, body=s.body, orelse=s.orelse)
+            s = ast.If(test=s.test.values[0], body=[inner], orelse=s.orelse)
+        if isinstance(s, ast.If):
+            nar = self.narrow_stmt(s.test, env)
+            if nar is not None:
+                opt, inner, env_some, none_first = nar
+                some_body, none_body = (s.orelse, s.body) if none_first else (s.body, s.orelse)
+                some_ = self.acts(list(some_body) + ([] if self.ends(some_body) else rest), env_some, ind + 1)
+                none_ = self.acts(list(none_body) + ([] if self.ends(none_body) else rest), env, ind + 1)
+                return (f'{pad}match {opt} with\n{pad}| none =>\n{none_}\n{pad}| some {inner} =>\n{some_}')
+            c, cty = self.expr(s.test, env)
+            then_ = self.acts(list(s.body) + ([] if self.ends(s.body) else rest), env, ind + 1)
+            else_ = self.acts(list(s.orelse) + ([] if self.ends(s.orelse) else rest), env, ind + 1)
+            return f'{pad}if {self.truthy(c, cty)} then\n{then_}\n{pad}else\n{else_}'
+        if isinstance(s, ast.For) and not s.orelse and isinstance(s.target, ast.Name):
+            slot = self.SLOTS.get(self.path(s.iter))
+            var = s.target.id
+            if slot and len(s.body) == 1 and isinstance(s.body[0], ast.Expr) and isinstance(s.body[0].value, ast.Call):
+                call = s.body[0].value
+                kws = {k.arg: k.value for k in call.keywords}
+                if (self.path(call.func) == var + '.send' and len(call.args) == 1 and self.path(call.args[0]) == 'self'
+                        and set(kws) == {'trigger', 'previous', 'value'}
+                        and isinstance(kws['trigger'], ast.Constant) and kws['trigger'].value == 'output'):
+                    pv, pty = self.expr(kws['previous'], env)
+                    vv, vty = self.expr(kws['value'], env)
+                    if pty == vty == 'val':
+                        return f'{pad}Prim.send {slot} {pv} {vv} ::\n' + self.acts(rest, env, ind)
+            raise Untranslatable('loop ' + ast.dump(s)[:160])
+        raise Untranslatable('statement ' + ast.dump(s)[:120])
+
+    def only_logging(self, stmts):
+        return all(isinstance(h, ast.Expr) and isinstance(h.value, ast.Call)
+                   and (self.path(h.value.func).startswith('self.log_') or self.path(h.value.func).startswith('_logger.'))
+                   for h in stmts)
+
+    def narrow_stmt(self, test, env):
+        """`PATH is [not] None` or `(NAME := PATH) is [not] None` with PATH an optional number"""
+        if (isinstance(test, ast.Compare) and len(test.ops) == 1 and isinstance(test.ops[0], (ast.Is, ast.IsNot))
+                and isinstance(test.comparators[0], ast.Constant) and test.comparators[0].value is None):
+            left, bind = test.left, None
+            if isinstance(left, ast.NamedExpr):
+                bind, left = left.target.id, left.value
+            try:
+                p = self.path(left)
+            except Untranslatable:
+                return None
+            if p in env and env[p][1] == 'optrat':
+                inner = bind or (env[p][0] + 'V')
+                env_some = dict(env)
+                env_some[bind or p] = (inner, 'rat')
+                return env[p][0], inner, env_some, isinstance(test.ops[0], ast.Is)
+        return None
+
+    def ends(self, stmts):
+        """does every path through the list end in return/raise?"""
+        for s in stmts:
+            if isinstance(s, (ast.Return, ast.Raise)):
+                return True
+            if isinstance(s, ast.If) and s.orelse and self.ends(s.body) and self.ends(s.orelse):
+                return True
+        return False
+
+
+def act_targets():
+    return [
+        dict(name='setOutputActs', doc='block.SBlock.set_output', node=lambda: fn_ast(block.SBlock.set_output),
+             params=[('own', 'Val'), ('value', 'Val'), ('every', 'List Output.Ev')],
+             names={'self._output': ('own', 'val'), 'value': ('value', 'val'), 'UNDEF': ('Val.undef', 'val'),
+                    'self._every_output_events': ('every', 'evs')}),
+        dict(name='evalBlockActs', doc='block.CBlock.eval_block (`computed`: what calc_output() returned)',
+             node=lambda: fn_ast(block.CBlock.eval_block),
+             params=[('own', 'Val'), ('computed', 'Val')],
+             names={'self._output': ('own', 'val'), 'UNDEF': ('Val.undef', 'val')},
+             calls={'self.calc_output': ('computed', 'val', [])}),
+    ]
+
+
+def persist_targets():
+    from edzed import addons
+    return [
+        dict(name='restoreActs', doc='addons.AddonPersistence.init_from_persistent_data',
+             node=lambda: fn_ast(addons.AddonPersistence.init_from_persistent_data),
+             params=[('lookup', 'Lookup'), ('expiration', 'Option Rat'), ('ts', 'Option Rat'), ('now', 'Rat')],
+             names={'self.expiration': ('expiration', 'optrat'), 'self.circuit.persistent_ts': ('ts', 'optrat')},
+             calls={'time.time': ('now', 'rat', [])},
+             fallible={'self.circuit.persistent_dict[self.key]':
+                       ('lookup', {'KeyError': 'missing', 'Exception': 'failed'}, 'found')},
+             prims={'self._restore_state': 'restore'}),
+    ]
+
+
+def sim_targets():
+    return [
+        dict(name='abortActs', doc='simulator.Circuit.abort', node=lambda: fn_ast(simulator.Circuit.abort),
+             params=[('error', 'Option Unit'), ('simtask', 'Option Unit'), ('taskDone', 'Bool')],
+             names={'self._error': ('error', 'optx'), 'self._simtask': ('simtask', 'optx')},
+             atoms={'self._simtask.done()': ('taskDone', 'bool'),
+                    # an argument that is no exception is replaced by a TypeError: still an exception
+                    'isinstance(exc, BaseException)': ('true', 'bool')},
+             assign_prims={'self._error': 'setError'}, prims={'self._simtask.cancel': 'cancelTask'}),
+    ]
+
+
+def main_sim(outfile):
+    L = ['/- GENERATED by tools/py2lean.py from the Python source of edzed (simulator.Circuit) -- do not edit -/',
+         '', 'namespace Edzed.Gen.TrS', '',
+         'inductive Prim where',
+         '  | setError             -- `self._error = exc`',
+         '  | cancelTask           -- `self._simtask.cancel()`',
+         '  | ret (b : Option Bool)',
+         '  deriving DecidableEq, Repr', '']
+
+    def translate(t):
+        tr = TrAct(t)
+        body = tr.acts(list(t['node']().body), dict(tr.names), 1)
+        params = ' '.join(f'({n} : {ty})' for n, ty in t['params'])
+        return f"def {t['name']} {params} : List Prim :=\n{body}"
+
+    for t in sim_targets():
+        emit(L, t, translate, ': the primitive actions in program order')
+    L.append('end Edzed.Gen.TrS')
+    write_if_changed(outfile, '\n'.join(L) + '\n')
+
+
+def main_persist(outfile):
+    L = ['/- GENERATED by tools/py2lean.py from the Python source of edzed (addons.AddonPersistence) -- do not edit -/',
+         '', 'namespace Edzed.Gen.TrP', '',
+         '/-- `self.circuit.persistent_dict[self.key]` -/',
+         'inductive Lookup where',
+         '  | found | missing /- KeyError -/ | failed /- any other exception -/',
+         '  deriving DecidableEq, Repr', '',
+         'inductive Prim where',
+         '  | restore              -- `self._restore_state(state)` (its errors are logged and suppressed)',
+         '  | ret (b : Option Bool)',
+         '  deriving DecidableEq, Repr', '']
+
+    def translate(t):
+        tr = TrAct(t)
+        body = tr.acts(list(t['node']().body), dict(tr.names), 1)
+        params = ' '.join(f'({n} : {ty})' for n, ty in t['params'])
+        return f"def {t['name']} {params} : List Prim :=\n{body}"
+
+    for t in persist_targets():
+        emit(L, t, translate, ': the primitive actions in program order')
+    L.append('end Edzed.Gen.TrP')
+    write_if_changed(outfile, '\n'.join(L) + '\n')
+
+
+def main_acts(outfile):
+    L = ['/- GENERATED by tools/py2lean.py from the Python source of edzed (set_output / eval_block) -- do not edit -/',
+         'import EdzedModel.Output', '', 'namespace Edzed.Gen.TrO', 'open Edzed.Output', '',
+         '/-- the primitive actions of an output assignment, in program order -/',
+         'inductive Prim where',
+         '  | raise (exc : String)',
+         '  | store (v : Val)                            -- `self._output = v`',
+         '  | enqueue                                    -- `self.circuit.sblock_queue.put_nowait(self)`',
+         "  | send (slot : Slot) (previous value : Val)  -- `for event in <slot>: event.send(self, trigger='output', previous=…, value=…)`",
+         '  | ret (b : Option Bool)                      -- `return`, `return True/False`',
+         '  deriving Repr, Inhabited', '']
+
+    def translate(t):
+        tr = TrAct(t)
+        body = tr.acts(list(t['node']().body), dict(tr.names), 1)
+        params = ' '.join(f'({n} : {ty})' for n, ty in t['params'])
+        return f"def {t['name']} {params} : List Prim :=\n{body}"
+
+    for t in act_targets():
+        emit(L, t, translate, ': the primitive actions in program order')
+    L.append('end Edzed.Gen.TrO')
+    write_if_changed(outfile, '\n'.join(L) + '\n')
+
+
+class TrSend(TrEdit):
+    """
+    `ExtEvent.send`: the mapping-threading scheme of TrEdit plus
+      if not <declared atom>: raise Exc(…)          ->  .error .<exc>
+      if <val name> is not UNDEF: …                 ->  if !(v).isUndef then …
+      try: NAME = data[K]  except KeyError: H  else: E
+      if not isinstance(NAME, str): raise Exc(…)    ->  match strOf? NAME … (NAME is a string afterwards)
+      if not <str expr>: …      data[K] = <str expr>      return self._dest.event(self._etype, **data)
+    Result: `Except ExtErr Data` -- the data passed to the destination's `event()`.
+    """
+    EXC = {'EdzedInvalidState': '.invalidState', 'TypeError': '.typeError'}
+
+    def sexpr(self, node):
+        """string / bool expressions over the names known as strings"""
+        tr = Tr({'names': {}})
+        env = {k: v for k, v in self.env.items() if v[1] in ('str', 'bool')}
+        return tr.expr(node, env)
+
+    def raises(self, stmts):
+        if len(stmts) == 1 and isinstance(stmts[0], ast.Raise) and isinstance(stmts[0].exc, ast.Call):
+            return self.EXC.get(getattr(stmts[0].exc.func, 'id', None))
+        return None
+
+    def block(self, stmts, fall, ind):
+        pad = '  ' * ind
+        if not stmts:
+            return pad + fall
+        s, rest = stmts[0], stmts[1:]
+        if isinstance(s, ast.If) and not s.orelse:
+            exc = self.raises(s.body)
+            t = s.test
+            neg = isinstance(t, ast.UnaryOp) and isinstance(t.op, ast.Not)
+            inner = t.operand if neg else t
+            if exc and neg and ast.unparse(inner) in self.t.get('atoms', {}):
+                a = self.t['atoms'][ast.unparse(inner)][0]
+                return f'{pad}if !{a} then .error {exc} else\n' + self.block(rest, fall, ind)
+            if (exc and neg and isinstance(inner, ast.Call) and getattr(inner.func, 'id', None) == 'isinstance'
+                    and len(inner.args) == 2 and getattr(inner.args[1], 'id', None) == 'str'):
+                name = self.name_of(inner.args[0], ('val',))[0]
+                self.env[self.path(inner.args[0])] = (name + 'S', 'str')
+                return (f'{pad}match strOf? {name} with\n{pad}| none => .error {exc}\n{pad}| some {name}S =>\n'
+                        + self.block(rest, fall, ind + 1))
+            if (isinstance(t, ast.Compare) and len(t.ops) == 1 and isinstance(t.ops[0], ast.IsNot)
+                    and self.path(t.comparators[0]) == 'UNDEF'):
+                v = self.name_of(t.left, ('val',))[0]
+                return (f'{pad}let data : Data := if !({v}).isUndef then\n'
+                        + self.block(list(s.body), 'data', ind + 2).replace('.ok data', 'data')
+                        + f'\n{pad}  else data\n' + self.block(rest, fall, ind))
+            if neg:
+                c, cty = self.sexpr(inner)
+                if cty == 'bool':
+                    return (f'{pad}let data : Data := if !{c} then\n'
+                            + self.block(list(s.body), 'data', ind + 2) + f'\n{pad}  else data\n'
+                            + self.block(rest, fall, ind))
+        if (isinstance(s, ast.Try) and len(s.body) == 1 and isinstance(s.body[0], ast.Assign)
+                and isinstance(s.body[0].targets[0], ast.Name) and self.is_data_sub(s.body[0].value)
+                and len(s.handlers) == 1 and getattr(s.handlers[0].type, 'id', None) == 'KeyError' and not s.finalbody):
+            name = s.body[0].targets[0].id
+            k = self.key(s.body[0].value.slice)
+            none_ = self.block(list(s.handlers[0].body) + rest, fall, ind + 1)
+            self.env[name] = (name, 'val')
+            some_ = self.block(list(s.orelse) + rest, fall, ind + 1)
+            return (f'{pad}match Data.get? data {k} with\n{pad}| none =>\n{none_}\n{pad}| some {name} =>\n{some_}')
+        if (isinstance(s, ast.Assign) and len(s.targets) == 1 and self.is_data_sub(s.targets[0])
+                and not isinstance(s.value, (ast.Name, ast.Subscript))
+                or (isinstance(s, ast.Assign) and len(s.targets) == 1 and self.is_data_sub(s.targets[0])
+                    and self.env.get(self.path(s.value) if isinstance(s.value, (ast.Name, ast.Attribute)) else '',
+                                     (None, None))[1] == 'str')):
+            k = self.key(s.targets[0].slice)
+            c, cty = self.sexpr(s.value)
+            if cty != 'str':
+                raise Untranslatable('data[k] = <' + cty + '>')
+            rest_txt = self.block(rest, fall, ind)
+            return f'{pad}let data : Data := Data.set data {k} (Val.str {c})\n' + rest_txt
+        if (isinstance(s, ast.Return) and isinstance(s.value, ast.Call)
+                and self.path(s.value.func) == 'self._dest.event' and len(s.value.args) == 1
+                and self.path(s.value.args[0]) == 'self._etype' and len(s.value.keywords) == 1
+                and s.value.keywords[0].arg is None and self.path(s.value.keywords[0].value) == 'data'):
+            return pad + '.ok data'
+        return TrEdit.block(self, stmts, fall, ind)
+
+
+def main_ext(outfile):
+    L = ['/- GENERATED by tools/py2lean.py from the Python source of edzed (block.ExtEvent.send) -- do not edit -/',
+         'import EdzedModel.Basic.Val', '', 'namespace Edzed.Gen.TrX', '',
+         'inductive ExtErr where',
+         '  | invalidState | typeError',
+         '  deriving DecidableEq, Repr', '',
+         '/-- `isinstance(x, str)` and the string itself -/',
+         'def strOf? : Val → Option String',
+         '  | .atom (.str s) => some s',
+         '  | _ => none', '']
+    t = dict(name='extSend', doc='block.ExtEvent.send (`value` = UNDEF: the argument was omitted)',
+             node=lambda: fn_ast(block.ExtEvent.send),
+             params=[('ready', 'Bool'), ('defaultSource', 'String'), ('value', 'Val'), ('data', 'Data')],
+             names={'data': ('data', 'data'), 'value': ('value', 'val'), 'self._source': ('defaultSource', 'str')},
+             atoms={'simulator.get_circuit().is_ready()': ('ready', 'bool')})
+
+    def translate(t):
+        node = t['node']()
+        a = node.args
+        if ([x.arg for x in a.args] != ['self', 'value'] or len(a.defaults) != 1
+                or node_path(a.defaults[0]) != 'UNDEF' or a.kwarg is None or a.kwarg.arg != 'data'):
+            raise Untranslatable('signature of ExtEvent.send')
+        body = TrSend(t).block(list(node.body), '.error .typeError', 1)
+        params = ' '.join(f'({n} : {ty})' for n, ty in t['params'])
+        return f"def {t['name']} {params} : Except ExtErr Data :=\n{body}"
+
+    emit(L, t, translate, ': the data passed to `dest.event(etype, **data)`')
+    L.append('end Edzed.Gen.TrX')
+    write_if_changed(outfile, '\n'.join(L) + '\n')
+
+
 def find_edit(method):
     """the function appended to `self._editlist` by a DataEdit operation: `def _edit(data)` or a lambda"""
     fn = fn_ast(getattr(method, '__wrapped__', method))
@@ -584,6 +994,20 @@ def find_lambda(cls, kwarg):
     raise Untranslatable(f'no lambda {kwarg}= in {cls.__name__}')
 
 
+def find_func_kw(cls):
+    """the value of the keyword argument `func=` in the class body: a lambda, or the builtin `all` / `any`
+    (turned into the equivalent lambda over `inputs`)"""
+    tree = ast.parse(textwrap.dedent(inspect.getsource(cls)))
+    for node in ast.walk(tree):
+        if isinstance(node, ast.keyword) and node.arg == 'func':
+            if isinstance(node.value, ast.Lambda):
+                return node.value
+            if isinstance(node.value, ast.Name) and node.value.id in ('all', 'any'):
+                return ast.Lambda(args=None, body=ast.Call(func=ast.Name(id=node.value.id), keywords=[],
+                                                           args=[ast.Name(id='inputs')]))
+    raise Untranslatable(f'no func= in {cls.__name__}')
+
+
 def find_assign_value(fn, attr):
     """the right-hand side of `self.<attr> = …` in a function"""
     for node in ast.walk(fn_ast(fn)):
@@ -639,6 +1063,12 @@ def targets():
              params=[('null', 'Val'), ('input', 'Val'), ('override', 'Val')],
              names={'self._null': ('null', 'val'), 'self._in.input': ('input', 'val'),
                     'self._in.override': ('override', 'val')}),
+        dict(name='notCalc', doc='cblocks.Not.calc_output', node=lambda: fn_ast(cblocks.Not.calc_output),
+             params=[('x', 'Val')], names={"self._in['_'][0]": ('x', 'val')}),
+        dict(name='andFunc', doc='cblocks.And: func=…', node=lambda: find_func_kw(cblocks.And),
+             params=[('inputs', 'List Val')], names={'inputs': ('inputs', 'vals')}),
+        dict(name='orFunc', doc='cblocks.Or: func=…', node=lambda: find_func_kw(cblocks.Or),
+             params=[('inputs', 'List Val')], names={'inputs': ('inputs', 'vals')}),
         dict(name='xorFunc', doc='cblocks.Xor: func=lambda inputs: …', node=lambda: find_lambda(cblocks.Xor, 'func'),
              params=[('inputs', 'List Val')], names={'inputs': ('inputs', 'vals')}),
         dict(name='counterSetmod', doc='sblocks1.Counter._setmod (the value stored and returned)',
@@ -720,6 +1150,10 @@ def main(outfile):
     L.append('end Edzed.Gen.Tr')
     write_if_changed(outfile, '\n'.join(L) + '\n')
     main_edit(os.path.join(os.path.dirname(outfile), 'TranslatedFilters.lean'))
+    main_acts(os.path.join(os.path.dirname(outfile), 'TranslatedOutput.lean'))
+    main_persist(os.path.join(os.path.dirname(outfile), 'TranslatedPersist.lean'))
+    main_sim(os.path.join(os.path.dirname(outfile), 'TranslatedSim.lean'))
+    main_ext(os.path.join(os.path.dirname(outfile), 'TranslatedExt.lean'))
 
 
 if __name__ == '__main__':
